@@ -111,7 +111,7 @@ def _load_file(data, order):
     f = P.load(data, lazy=False)
     file_order = list(f.getGlyphOrder())
     # does the FILE state glyph names (CFF charset strings / post formats with names), or did the reader make them up?
-    stored = ("CFF " in f and not hasattr(f["CFF "].cff.topDictIndex[0], "ROS")) or ("post" in f and f["post"].formatType in (1.0, 2.0, 4.0))
+    stored = "CFF " in f or ("post" in f and f["post"].formatType in (1.0, 2.0, 4.0))
     carried = bool(stored) and file_order == list(order)
     if file_order != list(order):
         f = P.load(data, lazy=False)
